@@ -567,14 +567,9 @@ func (c *cmafIngester) sendMediaSegment(ctx context.Context, wg *sync.WaitGroup,
 	u := fmt.Sprintf("%s/%s", c.dest(), segPath)
 	c.log.Info("send media segment", "path", segPath, "segNr", segNr, "nowMS", nowMS, "url", u, "chunked", c.useChunked)
 
-	nrBytesCh := make(chan int)
-	defer close(nrBytesCh)
-	writeMoreCh := make(chan struct{})
-	defer close(writeMoreCh)
 	finishedSendCh := make(chan struct{})
-	defer close(finishedSendCh)
 
-	src := newCmafSource(nrBytesCh, writeMoreCh, c.log, u, contentType, c.user, c.passWord, c.useChunked)
+	src := newCmafSource(c.log, u, contentType, c.user, c.passWord, c.useChunked)
 
 	// Create media segment based on number and send it to segPath
 	if c.useChunked {
@@ -582,6 +577,11 @@ func (c *cmafIngester) sendMediaSegment(ctx context.Context, wg *sync.WaitGroup,
 	}
 	code, err := writeSegment(ctx, src, c.log, c.cfg, c.mgr.s.Cfg.DrmCfg, c.mgr.s.assetMgr.vodFS,
 		c.asset, segPart, nowMS, c.mgr.s.textTemplates, isLast)
+	if c.useChunked {
+		// Signal the end of the segment, or abort the upload after an error. Then wait for the upload to end.
+		src.pipeW.CloseWithError(err)
+		<-finishedSendCh
+	}
 	c.log.Info("writeSegment", "code", code, "err", err)
 	if err != nil {
 		c.log.Error("writeSegment", "code", code, "err", err)
@@ -602,11 +602,7 @@ func (c *cmafIngester) sendMediaSegment(ctx context.Context, wg *sync.WaitGroup,
 			return
 		}
 	}
-	if c.useChunked {
-		<-writeMoreCh   // Capture final message
-		nrBytesCh <- -1 // Signal that we are done to Read (that reads and pushes to remote)
-		<-finishedSendCh
-	} else {
+	if !c.useChunked {
 		// Write should have written everything to a c.buffer
 		req, err := http.NewRequestWithContext(ctx, "PUT", u, src.buffer)
 		if err != nil {
@@ -626,50 +622,49 @@ func (c *cmafIngester) sendMediaSegment(ctx context.Context, wg *sync.WaitGroup,
 }
 
 // cmafSource intermediates HTTP response writer and client push writer
-// It provides a Read method that the client can use to read the data.
-// If useChunked, the data is sent in chunks, otherwise as a whole using Content-Length.
+// If useChunked, the data is sent in chunks via a pipe that the client reads as request body,
+// otherwise as a whole using Content-Length.
 type cmafSource struct {
 	ctx         context.Context
 	req         *http.Request
 	contentType string
-	nrBytesCh   chan int // Used to signal how many bytes have been written to local buffer.
-	writeMoreCh chan struct{}
+	pipeR       *io.PipeReader // Body of the chunked request
+	pipeW       *io.PipeWriter // Write end for the chunked request body
 	url         string
 	h           http.Header
 	status      int
 	log         *slog.Logger
-	buf         []byte
 	buffer      *bytes.Buffer
-	bufLevel    int // Keeping track of local buffer
-	offset      int // Offset in local buffer
 	user        string
 	password    string
 	useChunked  bool
 }
 
-func newCmafSource(nrBytesCh chan int, writeMoreCh chan struct{}, log *slog.Logger, url string, contentType, user, password string,
-	useChunked bool) *cmafSource {
+func newCmafSource(log *slog.Logger, url string, contentType, user, password string, useChunked bool) *cmafSource {
 	cs := cmafSource{
 		url:         url,
 		contentType: contentType,
 		h:           make(http.Header),
 		log:         log,
-		nrBytesCh:   nrBytesCh,
-		writeMoreCh: writeMoreCh,
 		user:        user,
 		password:    password,
 		useChunked:  useChunked,
 	}
 	if useChunked {
-		cs.buf = make([]byte, 64*1024)
+		cs.pipeR, cs.pipeW = io.Pipe()
 	}
 	return &cs
 }
 
+// startReadAndSendChunked uploads what is written to cs until the pipe is closed or the request fails.
+// It closes finishedCh when done.
 func (cs *cmafSource) startReadAndSendChunked(ctx context.Context, finishedCh chan struct{}) {
-	cs.writeMoreCh <- struct{}{} // Get the writer going
+	defer func() {
+		cs.pipeR.Close() // Nothing more will be read, so make a pending Write fail instead of block
+		close(finishedCh)
+	}()
 	cs.ctx = ctx
-	req, err := http.NewRequestWithContext(ctx, "PUT", cs.url, cs)
+	req, err := http.NewRequestWithContext(ctx, "PUT", cs.url, cs.pipeR)
 	if err != nil {
 		cs.log.Error("creating request", "err", err)
 		return
@@ -681,6 +676,10 @@ func (cs *cmafSource) startReadAndSendChunked(ctx context.Context, finishedCh ch
 		cs.log.Error("creating request", "err", err)
 		return
 	}
+	defer func() {
+		cs.log.Debug("Closing body", "url", cs.url)
+		resp.Body.Close()
+	}()
 	if resp.StatusCode >= 300 {
 		cs.log.Warn("Bad status code", "code", resp.StatusCode)
 		return
@@ -689,11 +688,6 @@ func (cs *cmafSource) startReadAndSendChunked(ctx context.Context, finishedCh ch
 	if err != nil {
 		cs.log.Warn("Error reading response body", "err", err)
 	}
-	defer func() {
-		cs.log.Debug("Closing body", "url", cs.url)
-		resp.Body.Close()
-	}()
-	finishedCh <- struct{}{}
 }
 
 func (cs *cmafSource) Header() http.Header {
@@ -731,52 +725,12 @@ func (cs *cmafSource) Write(b []byte) (int, error) {
 		}
 		return n, err
 	}
-	<-cs.writeMoreCh
-	if cs.offset != 0 || cs.bufLevel != 0 {
-		cs.log.Warn("bad write levels", "url", cs.url, "offset", cs.offset, "bufLevel", cs.bufLevel)
-	}
-	nrWritten := 0
-	for {
-		n := copy(cs.buf, b[nrWritten:])
-		cs.nrBytesCh <- n
-		nrWritten += n
-		if nrWritten == len(b) {
-			break
-		}
-		<-cs.writeMoreCh // Wait for OK from reader
-	}
-	return len(b), nil
+	return cs.pipeW.Write(b) // Returns when the client has read all of b, or with an error if the upload has ended
 }
 
 func (cs *cmafSource) WriteHeader(status int) {
 	cs.log.Debug("Writer status", "status", status)
 	cs.status = status
-}
-
-// Read reads data from the intermediate buffer.
-// It is triggered by receiving a message on nrBytesCh
-// with how many bytes are available.
-// The receiver never returns 0 bytes, except together
-// with io.EOF.
-func (cs *cmafSource) Read(p []byte) (int, error) {
-	if cs.offset >= cs.bufLevel {
-		nrAvailable := <-cs.nrBytesCh // wait for more bytes
-		cs.bufLevel = nrAvailable
-		if cs.bufLevel < 0 {
-			return 0, io.EOF
-		}
-		if cs.offset != 0 {
-			cs.log.Warn("Read", "url", cs.url, "offset is not zero", cs.offset)
-		}
-	}
-	n := copy(p, cs.buf[cs.offset:cs.bufLevel])
-	cs.offset += n
-	if cs.offset == cs.bufLevel {
-		cs.offset = 0
-		cs.bufLevel = 0
-		cs.writeMoreCh <- struct{}{}
-	}
-	return n, nil
 }
 
 type parentBox interface {
